@@ -365,6 +365,21 @@ def _in_exponent(lo, labels):
     return flag
 
 
+def _direct_exponent(lo, labels):
+    """positions that are the root of the second argument of a pow"""
+    flag = [False] * len(labels)
+
+    def walk(i, here):
+        flag[i] = here
+        a = lo.ARITY.get(labels[i], 0)
+        j = i + 1
+        for k in range(a):
+            j = walk(j, labels[i] == 'pow' and k == 1)
+        return j
+    walk(0, False)
+    return flag
+
+
 def _same(lo, f, g, rng, npar):
     pts = lo.gen_points(rng, npar, 8)
     res, det = lo.same_function(f, g, pts)
@@ -508,6 +523,35 @@ def search(ctx):
                     continue
                 par = _parents(lo, base_labels)
                 inexp = _in_exponent(lo, base_labels)
+                dexp = _direct_exponent(lo, base_labels)
+                # (a) the property itself: operators/x unchanged, a constant is kept or becomes a parameter, never the exponent of a
+                #     pow, and the tree with free parameters can still express the formula: no parameter of the new tree has to
+                #     take two different values (two constants, a constant and a parameter of the formula, two formula parameters)
+                need = {}
+                bad = None
+                for j, (l0, l1) in enumerate(zip(base_labels, labels)):
+                    tok = ("num", l0) if _is_num(l0) else ("par", l0) if _is_par(l0) else None
+                    if tok is None:
+                        if l1 != l0:
+                            bad = ("position %d: %r became %r (not a constant or parameter)" % (j, l0, l1), "C18:replace-floats:shape")
+                            break
+                        continue
+                    if _is_par(l1):
+                        if tok[0] == "num" and dexp[j]:
+                            bad = ("position %d: the constant exponent %r of a pow became the parameter %r" % (j, l0, l1), "C18:replace-floats:exponent")
+                            break
+                        if need.setdefault(l1, tok) != tok:
+                            bad = ("parameter %r of the new tree stands for %r at one position and for %r at position %d: no value of it "
+                                   "reproduces the formula" % (l1, need[l1][1], l0, j), "C18:replace-floats:parameter-collision")
+                            break
+                    elif l1 != l0:
+                        bad = ("position %d: %r became %r" % (j, l0, l1), "C18:replace-floats:value-changed")
+                        break
+                if bad is not None:
+                    fail("replace_floats: " + bad[0], bad[1], input=dict(inp, without_replacement=base_labels), observed=labels, expected="same function with the constants free")
+                    continue
+                # (b) ESR's own numbering (numbers not directly under pow and parameters become a0,a1,.. by position): stricter than the
+                #     property, so a difference here is a broken correspondence with the model (ToList.replace_floats), not a failing input
                 k = 0
                 for j, (l0, l1) in enumerate(zip(base_labels, labels)):
                     want = l0
@@ -515,8 +559,8 @@ def search(ctx):
                         want = "a%d" % k
                         k += 1
                     if l1 != want:
-                        fail("replace_floats: position %d is %r, expected %r (numbers not directly under pow and parameters become a0,a1,.. in order)" % (j, l1, want),
-                             "C18:replace-floats:wrong-label", input=dict(inp, without_replacement=base_labels), observed=labels, expected=want)
+                        rep.fail("broken-correspondence", "replace_floats: position %d is %r, the model (numbers not directly under pow and parameters become "
+                                 "a0,a1,.. in order) has %r; formula %r basis %s labels %r" % (j, l1, want, s, bname, labels), "C18:replace-floats:numbering")
                         break
                     if _is_num(l0) and inexp[j] and l1 != l0:
                         stats["nested_exponent_constant_replaced"] += 1
